@@ -103,6 +103,18 @@ package align
 // prefix). cell(i, j) is a marker, true everywhere: the recurrence is unfolded only for marked cells.
 //@ spec cell(i int, j int) bool
 //@ axiom forall i int, j int {cell(i, j)} :: cell(i, j)
+// The traceback addresses the table through rowbase(i, c) == i*c: the definition is unfolded only for marked rows
+// (defmark), neighbouring rows are related by the linear consequence rowbase(i+1, c) == rowbase(i, c) + c (instantiated
+// only for two row terms that already exist), and the invariant about the whole table fires only for wanted cells.
+//@ spec want(i int, j int) bool
+//@ axiom forall i int, j int {want(i, j)} :: want(i, j)
+//@ spec succ(k int, k2 int) bool
+//@ axiom forall k int, k2 int {succ(k, k2)} :: succ(k, k2)
+//@ spec defmark(i int) bool
+//@ axiom forall i int {defmark(i)} :: defmark(i)
+//@ spec rowbase(i int, c int) int
+//@ axiom forall i int, c int {rowbase(i, c), defmark(i)} :: rowbase(i, c) == i * c
+//@ axiom forall i int, i3 int, c int {rowbase(i, c), rowbase(i3, c)} :: i3 == i + 1 ==> rowbase(i3, c) == rowbase(i, c) + c
 //@ spec nwOpt(a NW, alpha alphabet.Alphabet, rSeq alphabet.Letters, qSeq alphabet.Letters, i int, j int) int
 //@ axiom forall a NW, alpha alphabet.Alphabet, rSeq alphabet.Letters, qSeq alphabet.Letters, i int, j int {nwOpt(a, alpha, rSeq, qSeq, i, j), cell(i, j)} :: (i == 0 && j == 0 ==> nwOpt(a, alpha, rSeq, qSeq, i, j) == 0) && (i == 0 && j > 0 ==> nwOpt(a, alpha, rSeq, qSeq, i, j) == nwOpt(a, alpha, rSeq, qSeq, 0, j-1) + a[0][lidx(alpha, qSeq[j-1])]) && (i > 0 && j == 0 ==> nwOpt(a, alpha, rSeq, qSeq, i, j) == nwOpt(a, alpha, rSeq, qSeq, i-1, 0) + a[lidx(alpha, rSeq[i-1])][0]) && (i > 0 && j > 0 ==> nwOpt(a, alpha, rSeq, qSeq, i, j) == max(max(nwOpt(a, alpha, rSeq, qSeq, i-1, j-1) + a[lidx(alpha, rSeq[i-1])][lidx(alpha, qSeq[j-1])], nwOpt(a, alpha, rSeq, qSeq, i-1, j) + a[lidx(alpha, rSeq[i-1])][0]), nwOpt(a, alpha, rSeq, qSeq, i, j-1) + a[0][lidx(alpha, qSeq[j-1])]))
 //@ spec nwOptQ(a NW, alpha alphabet.Alphabet, rSeq alphabet.QLetters, qSeq alphabet.QLetters, i int, j int) int
@@ -128,6 +140,9 @@ package align
 //@   ensures [undersized]        len(a) < alphaLen(alpha) ==> result1 != nil
 //@   ensures [ragged]            (exists k int :: 0 <= k && k < len(a) && len(a[k]) != len(a)) ==> result1 != nil
 //@   ensures [spans] result1 == nil ==> len(result0) > 0 && result0[0].(*featPair).a.start == 0 && result0[0].(*featPair).b.start == 0 && result0[len(result0)-1].(*featPair).a.end == len(rSeq) && result0[len(result0)-1].(*featPair).b.end == len(qSeq)
+//@   ensures [objects] result1 == nil ==> forall k int {result0[k]} :: 0 <= k && k < len(result0) ==> result0[k].(*featPair) != nil
+//@   ensures [scores] result1 == nil ==> forall k int {result0[k]} :: 0 <= k && k < len(result0) ==> result0[k].(*featPair).score == nwOpt(a, alpha, rSeq, qSeq, result0[k].(*featPair).a.end, result0[k].(*featPair).b.end) - nwOpt(a, alpha, rSeq, qSeq, result0[k].(*featPair).a.start, result0[k].(*featPair).b.start)
+//@   ensures [chain] result1 == nil ==> forall k int, k2 int {succ(k, k2)} :: 0 <= k && k2 == k + 1 && k2 < len(result0) ==> proving(succ(k, k2)) && result0[k].(*featPair).a.end == result0[k2].(*featPair).a.start && result0[k].(*featPair).b.end == result0[k2].(*featPair).b.start
 //@   loop 1 invariant 0 <= idx && idx <= len(a) && let == len(a) && let >= alphaLen(alpha) && len(la) == idx * let && cap(la) >= let * let && fresh(la) && forall k int :: 0 <= k && k < idx ==> len(a[k]) == let
 //@   loop 2 invariant 0 <= idx && idx <= len(rSeq) && ref(index) == idxRef(alpha) && let == len(a) && let >= alphaLen(alpha) && len(la) == let * let && index != nil && (forall b int :: 0 <= b && b < 256 ==> index[b] == lidx(alpha, b)) && (forall k int :: 0 <= k && k < len(a) ==> len(a[k]) == let) && forall k int :: 0 <= k && k < idx ==> lidx(alpha, rSeq[k]) >= 0
 //@   loop 3 invariant 0 <= idx && idx <= len(qSeq) && ref(index) == idxRef(alpha) && let == len(a) && let >= alphaLen(alpha) && len(la) == let * let && index != nil && (forall b int :: 0 <= b && b < 256 ==> index[b] == lidx(alpha, b)) && (forall k int :: 0 <= k && k < len(a) ==> len(a[k]) == let) && (forall k int :: 0 <= k && k < len(rSeq) ==> lidx(alpha, rSeq[k]) >= 0) && forall k int :: 0 <= k && k < idx ==> lidx(alpha, qSeq[k]) >= 0
@@ -148,6 +163,10 @@ package align
 //@   loop 9 writes fresh
 //@   loop 1 invariant [la] forall x int, y int {old(a[x][y])} :: 0 <= x && x < idx && 0 <= y && y < let ==> la[x*let+y] == old(a[x][y])
 //@   loop 1 writes fresh
+//@   loop 4 isolate
+//@   loop 5 isolate
+//@   loop 6 isolate
+//@   loop 7 isolate
 //@   loop 2 invariant [la] forall x int, y int {old(a[x][y])} :: 0 <= x && x < let && 0 <= y && y < let ==> la[x*let+y] == old(a[x][y])
 //@   loop 3 invariant [la] forall x int, y int {old(a[x][y])} :: 0 <= x && x < let && 0 <= y && y < let ==> la[x*let+y] == old(a[x][y])
 //@   loop 4 invariant [la] forall x int, y int {old(a[x][y])} :: 0 <= x && x < let && 0 <= y && y < let ==> la[x*let+y] == old(a[x][y])
@@ -164,8 +183,25 @@ package align
 //@   loop 7 invariant [dp-col0] forall i2 int {nwOpt(a, alpha, rSeq, qSeq, i2, 0)} :: 0 <= i2 && i2 < r ==> proving(cell(i2, 0)) && table[i2*c] == nwOpt(a, alpha, rSeq, qSeq, i2, 0)
 //@   loop 7 invariant [dp-done] forall i2 int, j2 int {nwOpt(a, alpha, rSeq, qSeq, i2, j2)} :: 0 <= i2 && i2 < i && 0 <= j2 && j2 < c ==> proving(cell(i2, j2)) && table[i2*c+j2] == nwOpt(a, alpha, rSeq, qSeq, i2, j2)
 //@   loop 7 invariant [dp-prev] forall j2 int {nwOpt(a, alpha, rSeq, qSeq, i-1, j2)} :: 0 <= j2 && j2 < c ==> proving(cell(i-1, j2)) && table[(i-1)*c+j2] == nwOpt(a, alpha, rSeq, qSeq, i-1, j2)
-//@   loop 7 invariant [dp-cur] forall j2 int {nwOpt(a, alpha, rSeq, qSeq, i, j2)} :: 0 <= j2 && j2 < j ==> proving(cell(i, j2)) && table[i*c+j2] == nwOpt(a, alpha, rSeq, qSeq, i, j2)
-//@   loop 8 invariant [dp] forall i2 int, j2 int {nwOpt(a, alpha, rSeq, qSeq, i2, j2)} :: 0 <= i2 && i2 < r && 0 <= j2 && j2 < c ==> proving(cell(i2, j2)) && table[i2*c+j2] == nwOpt(a, alpha, rSeq, qSeq, i2, j2)
+//@   loop 7 invariant [dp-cur] forall j2 int {nwOpt(a, alpha, rSeq, qSeq, i, j2)} :: 0 <= j2 && j2 < j - 1 ==> proving(cell(i, j2)) && table[i*c+j2] == nwOpt(a, alpha, rSeq, qSeq, i, j2)
+//@   loop 7 invariant [dp-new] proving(cell(i, j-1)) && table[i*c+j-1] == nwOpt(a, alpha, rSeq, qSeq, i, j-1)
+//@   loop 8 invariant [dp] forall i2 int, j2 int {want(i2, j2)} :: 0 <= i2 && i2 < r && 0 <= j2 && j2 < c ==> proving(want(i2, j2)) && proving(defmark(i2)) && proving(cell(i2, j2)) && table[rowbase(i2, c)+j2] == nwOpt(a, alpha, rSeq, qSeq, i2, j2)
+//@   loop 8 invariant [base] proving(defmark(i)) && rowbase(i, c) == i*c
+//@   loop 8 invariant [wants] want(i, j) && want(i-1, j-1) && want(i-1, j) && want(i, j-1)
+//@   loop 8 isolate
+//@   loop 9 isolate
+//@   loop 8 invariant [seg] score == nwOpt(a, alpha, rSeq, qSeq, maxI, maxJ) - nwOpt(a, alpha, rSeq, qSeq, i, j)
+//@   loop 8 invariant [alloc] forall k int {aln[k]} :: 0 <= k && k < len(aln) ==> allocated(aln[k].(*featPair)) && aln[k].(*featPair) != nil
+//@   loop 9 invariant [alloc] forall k int {aln[k]} :: 0 <= k && k < len(aln) ==> aln[k].(*featPair) != nil
+//@   loop 8 invariant [scores] forall k int {aln[k]} :: 0 <= k && k < len(aln) ==> aln[k].(*featPair).score == nwOpt(a, alpha, rSeq, qSeq, aln[k].(*featPair).a.end, aln[k].(*featPair).b.end) - nwOpt(a, alpha, rSeq, qSeq, aln[k].(*featPair).a.start, aln[k].(*featPair).b.start)
+//@   loop 8 invariant [chain] forall k int, k2 int {succ(k, k2)} :: 0 <= k && k2 == k + 1 && k2 < len(aln) ==> proving(succ(k, k2)) && aln[k2].(*featPair).a.end == aln[k].(*featPair).a.start && aln[k2].(*featPair).b.end == aln[k].(*featPair).b.start
+//@   loop 8 invariant [tail] forall k int {aln[k]} :: 0 <= k && k == len(aln) - 1 ==> aln[k].(*featPair).a.start == maxI && aln[k].(*featPair).b.start == maxJ
+//@   loop 8 invariant [origin] proving(cell(0, 0)) && nwOpt(a, alpha, rSeq, qSeq, 0, 0) == 0
+//@   loop 9 invariant [scores] forall k int {aln[k]} :: 0 <= k && k < len(aln) ==> aln[k].(*featPair).score == nwOpt(a, alpha, rSeq, qSeq, aln[k].(*featPair).a.end, aln[k].(*featPair).b.end) - nwOpt(a, alpha, rSeq, qSeq, aln[k].(*featPair).a.start, aln[k].(*featPair).b.start)
+//@   loop 9 invariant [chain-done] forall k int, k2 int {succ(k, k2)} :: 0 <= k && k2 == k + 1 && k2 < len(aln) && (k2 < i || k > j) ==> proving(succ(k, k2)) && aln[k].(*featPair).a.end == aln[k2].(*featPair).a.start && aln[k].(*featPair).b.end == aln[k2].(*featPair).b.start
+//@   loop 9 invariant [chain-todo] forall k int, k2 int {succ(k, k2)} :: i <= k && k2 == k + 1 && k2 <= j ==> proving(succ(k, k2)) && aln[k2].(*featPair).a.end == aln[k].(*featPair).a.start && aln[k2].(*featPair).b.end == aln[k].(*featPair).b.start
+//@   loop 9 invariant [chain-joint] i > 0 && i <= j ==> proving(succ(i-1, i)) && proving(succ(j, j+1)) && aln[i-1].(*featPair).a.end == aln[j].(*featPair).a.start && aln[i-1].(*featPair).b.end == aln[j].(*featPair).b.start && aln[i].(*featPair).a.end == aln[j+1].(*featPair).a.start && aln[i].(*featPair).b.end == aln[j+1].(*featPair).b.start
+//@   loop 9 invariant [chain-met] i > 0 && i == j + 1 ==> proving(succ(i-1, i)) && proving(succ(j, j+1)) && aln[j].(*featPair).a.end == aln[i].(*featPair).a.start && aln[j].(*featPair).b.end == aln[i].(*featPair).b.start
 
 //@ func (NW).alignQLetters
 //@   property C09
@@ -178,6 +214,9 @@ package align
 //@   ensures [undersized]        len(a) < alphaLen(alpha) ==> result1 != nil
 //@   ensures [ragged]            (exists k int :: 0 <= k && k < len(a) && len(a[k]) != len(a)) ==> result1 != nil
 //@   ensures [spans] result1 == nil ==> len(result0) > 0 && result0[0].(*featPair).a.start == 0 && result0[0].(*featPair).b.start == 0 && result0[len(result0)-1].(*featPair).a.end == len(rSeq) && result0[len(result0)-1].(*featPair).b.end == len(qSeq)
+//@   ensures [objects] result1 == nil ==> forall k int {result0[k]} :: 0 <= k && k < len(result0) ==> result0[k].(*featPair) != nil
+//@   ensures [scores] result1 == nil ==> forall k int {result0[k]} :: 0 <= k && k < len(result0) ==> result0[k].(*featPair).score == nwOptQ(a, alpha, rSeq, qSeq, result0[k].(*featPair).a.end, result0[k].(*featPair).b.end) - nwOptQ(a, alpha, rSeq, qSeq, result0[k].(*featPair).a.start, result0[k].(*featPair).b.start)
+//@   ensures [chain] result1 == nil ==> forall k int, k2 int {succ(k, k2)} :: 0 <= k && k2 == k + 1 && k2 < len(result0) ==> proving(succ(k, k2)) && result0[k].(*featPair).a.end == result0[k2].(*featPair).a.start && result0[k].(*featPair).b.end == result0[k2].(*featPair).b.start
 //@   loop 1 invariant 0 <= idx && idx <= len(a) && let == len(a) && let >= alphaLen(alpha) && len(la) == idx * let && cap(la) >= let * let && fresh(la) && forall k int :: 0 <= k && k < idx ==> len(a[k]) == let
 //@   loop 2 invariant 0 <= idx && idx <= len(rSeq) && ref(index) == idxRef(alpha) && let == len(a) && let >= alphaLen(alpha) && len(la) == let * let && index != nil && (forall b int :: 0 <= b && b < 256 ==> index[b] == lidx(alpha, b)) && (forall k int :: 0 <= k && k < len(a) ==> len(a[k]) == let) && forall k int :: 0 <= k && k < idx ==> lidx(alpha, rSeq[k].L) >= 0
 //@   loop 3 invariant 0 <= idx && idx <= len(qSeq) && ref(index) == idxRef(alpha) && let == len(a) && let >= alphaLen(alpha) && len(la) == let * let && index != nil && (forall b int :: 0 <= b && b < 256 ==> index[b] == lidx(alpha, b)) && (forall k int :: 0 <= k && k < len(a) ==> len(a[k]) == let) && (forall k int :: 0 <= k && k < len(rSeq) ==> lidx(alpha, rSeq[k].L) >= 0) && forall k int :: 0 <= k && k < idx ==> lidx(alpha, qSeq[k].L) >= 0
@@ -198,6 +237,10 @@ package align
 //@   loop 9 writes fresh
 //@   loop 1 invariant [la] forall x int, y int {old(a[x][y])} :: 0 <= x && x < idx && 0 <= y && y < let ==> la[x*let+y] == old(a[x][y])
 //@   loop 1 writes fresh
+//@   loop 4 isolate
+//@   loop 5 isolate
+//@   loop 6 isolate
+//@   loop 7 isolate
 //@   loop 2 invariant [la] forall x int, y int {old(a[x][y])} :: 0 <= x && x < let && 0 <= y && y < let ==> la[x*let+y] == old(a[x][y])
 //@   loop 3 invariant [la] forall x int, y int {old(a[x][y])} :: 0 <= x && x < let && 0 <= y && y < let ==> la[x*let+y] == old(a[x][y])
 //@   loop 4 invariant [la] forall x int, y int {old(a[x][y])} :: 0 <= x && x < let && 0 <= y && y < let ==> la[x*let+y] == old(a[x][y])
@@ -214,8 +257,25 @@ package align
 //@   loop 7 invariant [dp-col0] forall i2 int {nwOptQ(a, alpha, rSeq, qSeq, i2, 0)} :: 0 <= i2 && i2 < r ==> proving(cell(i2, 0)) && table[i2*c] == nwOptQ(a, alpha, rSeq, qSeq, i2, 0)
 //@   loop 7 invariant [dp-done] forall i2 int, j2 int {nwOptQ(a, alpha, rSeq, qSeq, i2, j2)} :: 0 <= i2 && i2 < i && 0 <= j2 && j2 < c ==> proving(cell(i2, j2)) && table[i2*c+j2] == nwOptQ(a, alpha, rSeq, qSeq, i2, j2)
 //@   loop 7 invariant [dp-prev] forall j2 int {nwOptQ(a, alpha, rSeq, qSeq, i-1, j2)} :: 0 <= j2 && j2 < c ==> proving(cell(i-1, j2)) && table[(i-1)*c+j2] == nwOptQ(a, alpha, rSeq, qSeq, i-1, j2)
-//@   loop 7 invariant [dp-cur] forall j2 int {nwOptQ(a, alpha, rSeq, qSeq, i, j2)} :: 0 <= j2 && j2 < j ==> proving(cell(i, j2)) && table[i*c+j2] == nwOptQ(a, alpha, rSeq, qSeq, i, j2)
-//@   loop 8 invariant [dp] forall i2 int, j2 int {nwOptQ(a, alpha, rSeq, qSeq, i2, j2)} :: 0 <= i2 && i2 < r && 0 <= j2 && j2 < c ==> proving(cell(i2, j2)) && table[i2*c+j2] == nwOptQ(a, alpha, rSeq, qSeq, i2, j2)
+//@   loop 7 invariant [dp-cur] forall j2 int {nwOptQ(a, alpha, rSeq, qSeq, i, j2)} :: 0 <= j2 && j2 < j - 1 ==> proving(cell(i, j2)) && table[i*c+j2] == nwOptQ(a, alpha, rSeq, qSeq, i, j2)
+//@   loop 7 invariant [dp-new] proving(cell(i, j-1)) && table[i*c+j-1] == nwOptQ(a, alpha, rSeq, qSeq, i, j-1)
+//@   loop 8 invariant [dp] forall i2 int, j2 int {want(i2, j2)} :: 0 <= i2 && i2 < r && 0 <= j2 && j2 < c ==> proving(want(i2, j2)) && proving(defmark(i2)) && proving(cell(i2, j2)) && table[rowbase(i2, c)+j2] == nwOptQ(a, alpha, rSeq, qSeq, i2, j2)
+//@   loop 8 invariant [base] proving(defmark(i)) && rowbase(i, c) == i*c
+//@   loop 8 invariant [wants] want(i, j) && want(i-1, j-1) && want(i-1, j) && want(i, j-1)
+//@   loop 8 isolate
+//@   loop 9 isolate
+//@   loop 8 invariant [seg] score == nwOptQ(a, alpha, rSeq, qSeq, maxI, maxJ) - nwOptQ(a, alpha, rSeq, qSeq, i, j)
+//@   loop 8 invariant [alloc] forall k int {aln[k]} :: 0 <= k && k < len(aln) ==> allocated(aln[k].(*featPair)) && aln[k].(*featPair) != nil
+//@   loop 9 invariant [alloc] forall k int {aln[k]} :: 0 <= k && k < len(aln) ==> aln[k].(*featPair) != nil
+//@   loop 8 invariant [scores] forall k int {aln[k]} :: 0 <= k && k < len(aln) ==> aln[k].(*featPair).score == nwOptQ(a, alpha, rSeq, qSeq, aln[k].(*featPair).a.end, aln[k].(*featPair).b.end) - nwOptQ(a, alpha, rSeq, qSeq, aln[k].(*featPair).a.start, aln[k].(*featPair).b.start)
+//@   loop 8 invariant [chain] forall k int, k2 int {succ(k, k2)} :: 0 <= k && k2 == k + 1 && k2 < len(aln) ==> proving(succ(k, k2)) && aln[k2].(*featPair).a.end == aln[k].(*featPair).a.start && aln[k2].(*featPair).b.end == aln[k].(*featPair).b.start
+//@   loop 8 invariant [tail] forall k int {aln[k]} :: 0 <= k && k == len(aln) - 1 ==> aln[k].(*featPair).a.start == maxI && aln[k].(*featPair).b.start == maxJ
+//@   loop 8 invariant [origin] proving(cell(0, 0)) && nwOptQ(a, alpha, rSeq, qSeq, 0, 0) == 0
+//@   loop 9 invariant [scores] forall k int {aln[k]} :: 0 <= k && k < len(aln) ==> aln[k].(*featPair).score == nwOptQ(a, alpha, rSeq, qSeq, aln[k].(*featPair).a.end, aln[k].(*featPair).b.end) - nwOptQ(a, alpha, rSeq, qSeq, aln[k].(*featPair).a.start, aln[k].(*featPair).b.start)
+//@   loop 9 invariant [chain-done] forall k int, k2 int {succ(k, k2)} :: 0 <= k && k2 == k + 1 && k2 < len(aln) && (k2 < i || k > j) ==> proving(succ(k, k2)) && aln[k].(*featPair).a.end == aln[k2].(*featPair).a.start && aln[k].(*featPair).b.end == aln[k2].(*featPair).b.start
+//@   loop 9 invariant [chain-todo] forall k int, k2 int {succ(k, k2)} :: i <= k && k2 == k + 1 && k2 <= j ==> proving(succ(k, k2)) && aln[k2].(*featPair).a.end == aln[k].(*featPair).a.start && aln[k2].(*featPair).b.end == aln[k].(*featPair).b.start
+//@   loop 9 invariant [chain-joint] i > 0 && i <= j ==> proving(succ(i-1, i)) && proving(succ(j, j+1)) && aln[i-1].(*featPair).a.end == aln[j].(*featPair).a.start && aln[i-1].(*featPair).b.end == aln[j].(*featPair).b.start && aln[i].(*featPair).a.end == aln[j+1].(*featPair).a.start && aln[i].(*featPair).b.end == aln[j+1].(*featPair).b.start
+//@   loop 9 invariant [chain-met] i > 0 && i == j + 1 ==> proving(succ(i-1, i)) && proving(succ(j, j+1)) && aln[j].(*featPair).a.end == aln[i].(*featPair).a.start && aln[j].(*featPair).b.end == aln[i].(*featPair).b.start
 
 //@ func (SW).alignLetters
 //@   property C09
@@ -245,6 +305,8 @@ package align
 //@   loop 5 writes fresh
 //@   loop 1 invariant [la] forall x int, y int {old(a[x][y])} :: 0 <= x && x < idx && 0 <= y && y < let ==> la[x*let+y] == old(a[x][y])
 //@   loop 1 writes fresh
+//@   loop 2 isolate
+//@   loop 3 isolate
 //@   loop 2 invariant [la] forall x int, y int {old(a[x][y])} :: 0 <= x && x < let && 0 <= y && y < let ==> la[x*let+y] == old(a[x][y])
 //@   loop 3 invariant [la] forall x int, y int {old(a[x][y])} :: 0 <= x && x < let && 0 <= y && y < let ==> la[x*let+y] == old(a[x][y])
 //@   loop 2 invariant [dp-col0] forall i2 int {swOpt(a, alpha, rSeq, qSeq, i2, 0)} :: 0 <= i2 && i2 < r ==> proving(cell(i2, 0)) && table[i2*c] == swOpt(a, alpha, rSeq, qSeq, i2, 0)
@@ -253,7 +315,8 @@ package align
 //@   loop 3 invariant [dp-col0] forall i2 int {swOpt(a, alpha, rSeq, qSeq, i2, 0)} :: 0 <= i2 && i2 < r ==> proving(cell(i2, 0)) && table[i2*c] == swOpt(a, alpha, rSeq, qSeq, i2, 0)
 //@   loop 3 invariant [dp-done] forall i2 int, j2 int {swOpt(a, alpha, rSeq, qSeq, i2, j2)} :: 0 <= i2 && i2 < i && 0 <= j2 && j2 < c ==> proving(cell(i2, j2)) && table[i2*c+j2] == swOpt(a, alpha, rSeq, qSeq, i2, j2)
 //@   loop 3 invariant [dp-prev] forall j2 int {swOpt(a, alpha, rSeq, qSeq, i-1, j2)} :: 0 <= j2 && j2 < c ==> proving(cell(i-1, j2)) && table[(i-1)*c+j2] == swOpt(a, alpha, rSeq, qSeq, i-1, j2)
-//@   loop 3 invariant [dp-cur] forall j2 int {swOpt(a, alpha, rSeq, qSeq, i, j2)} :: 0 <= j2 && j2 < j ==> proving(cell(i, j2)) && table[i*c+j2] == swOpt(a, alpha, rSeq, qSeq, i, j2)
+//@   loop 3 invariant [dp-cur] forall j2 int {swOpt(a, alpha, rSeq, qSeq, i, j2)} :: 0 <= j2 && j2 < j - 1 ==> proving(cell(i, j2)) && table[i*c+j2] == swOpt(a, alpha, rSeq, qSeq, i, j2)
+//@   loop 3 invariant [dp-new] proving(cell(i, j-1)) && table[i*c+j-1] == swOpt(a, alpha, rSeq, qSeq, i, j-1)
 //@   loop 4 invariant [dp] forall i2 int, j2 int {swOpt(a, alpha, rSeq, qSeq, i2, j2)} :: 0 <= i2 && i2 < r && 0 <= j2 && j2 < c ==> proving(cell(i2, j2)) && table[i2*c+j2] == swOpt(a, alpha, rSeq, qSeq, i2, j2)
 
 //@ func (SW).alignQLetters
@@ -284,6 +347,8 @@ package align
 //@   loop 5 writes fresh
 //@   loop 1 invariant [la] forall x int, y int {old(a[x][y])} :: 0 <= x && x < idx && 0 <= y && y < let ==> la[x*let+y] == old(a[x][y])
 //@   loop 1 writes fresh
+//@   loop 2 isolate
+//@   loop 3 isolate
 //@   loop 2 invariant [la] forall x int, y int {old(a[x][y])} :: 0 <= x && x < let && 0 <= y && y < let ==> la[x*let+y] == old(a[x][y])
 //@   loop 3 invariant [la] forall x int, y int {old(a[x][y])} :: 0 <= x && x < let && 0 <= y && y < let ==> la[x*let+y] == old(a[x][y])
 //@   loop 2 invariant [dp-col0] forall i2 int {swOptQ(a, alpha, rSeq, qSeq, i2, 0)} :: 0 <= i2 && i2 < r ==> proving(cell(i2, 0)) && table[i2*c] == swOptQ(a, alpha, rSeq, qSeq, i2, 0)
@@ -292,7 +357,8 @@ package align
 //@   loop 3 invariant [dp-col0] forall i2 int {swOptQ(a, alpha, rSeq, qSeq, i2, 0)} :: 0 <= i2 && i2 < r ==> proving(cell(i2, 0)) && table[i2*c] == swOptQ(a, alpha, rSeq, qSeq, i2, 0)
 //@   loop 3 invariant [dp-done] forall i2 int, j2 int {swOptQ(a, alpha, rSeq, qSeq, i2, j2)} :: 0 <= i2 && i2 < i && 0 <= j2 && j2 < c ==> proving(cell(i2, j2)) && table[i2*c+j2] == swOptQ(a, alpha, rSeq, qSeq, i2, j2)
 //@   loop 3 invariant [dp-prev] forall j2 int {swOptQ(a, alpha, rSeq, qSeq, i-1, j2)} :: 0 <= j2 && j2 < c ==> proving(cell(i-1, j2)) && table[(i-1)*c+j2] == swOptQ(a, alpha, rSeq, qSeq, i-1, j2)
-//@   loop 3 invariant [dp-cur] forall j2 int {swOptQ(a, alpha, rSeq, qSeq, i, j2)} :: 0 <= j2 && j2 < j ==> proving(cell(i, j2)) && table[i*c+j2] == swOptQ(a, alpha, rSeq, qSeq, i, j2)
+//@   loop 3 invariant [dp-cur] forall j2 int {swOptQ(a, alpha, rSeq, qSeq, i, j2)} :: 0 <= j2 && j2 < j - 1 ==> proving(cell(i, j2)) && table[i*c+j2] == swOptQ(a, alpha, rSeq, qSeq, i, j2)
+//@   loop 3 invariant [dp-new] proving(cell(i, j-1)) && table[i*c+j-1] == swOptQ(a, alpha, rSeq, qSeq, i, j-1)
 //@   loop 4 invariant [dp] forall i2 int, j2 int {swOptQ(a, alpha, rSeq, qSeq, i2, j2)} :: 0 <= i2 && i2 < r && 0 <= j2 && j2 < c ==> proving(cell(i2, j2)) && table[i2*c+j2] == swOptQ(a, alpha, rSeq, qSeq, i2, j2)
 
 //@ func (Fitted).alignLetters
@@ -328,6 +394,9 @@ package align
 //@   loop 10 writes fresh
 //@   loop 1 invariant [la] forall x int, y int {old(a[x][y])} :: 0 <= x && x < idx && 0 <= y && y < let ==> la[x*let+y] == old(a[x][y])
 //@   loop 1 writes fresh
+//@   loop 4 isolate
+//@   loop 5 isolate
+//@   loop 6 isolate
 //@   loop 2 invariant [la] forall x int, y int {old(a[x][y])} :: 0 <= x && x < let && 0 <= y && y < let ==> la[x*let+y] == old(a[x][y])
 //@   loop 3 invariant [la] forall x int, y int {old(a[x][y])} :: 0 <= x && x < let && 0 <= y && y < let ==> la[x*let+y] == old(a[x][y])
 //@   loop 4 invariant [la] forall x int, y int {old(a[x][y])} :: 0 <= x && x < let && 0 <= y && y < let ==> la[x*let+y] == old(a[x][y])
@@ -341,7 +410,8 @@ package align
 //@   loop 6 invariant [dp-col0] forall i2 int {fitOpt(a, alpha, rSeq, qSeq, i2, 0)} :: 0 <= i2 && i2 < r ==> proving(cell(i2, 0)) && table[i2*c] == fitOpt(a, alpha, rSeq, qSeq, i2, 0)
 //@   loop 6 invariant [dp-done] forall i2 int, j2 int {fitOpt(a, alpha, rSeq, qSeq, i2, j2)} :: 0 <= i2 && i2 < i && 0 <= j2 && j2 < c ==> proving(cell(i2, j2)) && table[i2*c+j2] == fitOpt(a, alpha, rSeq, qSeq, i2, j2)
 //@   loop 6 invariant [dp-prev] forall j2 int {fitOpt(a, alpha, rSeq, qSeq, i-1, j2)} :: 0 <= j2 && j2 < c ==> proving(cell(i-1, j2)) && table[(i-1)*c+j2] == fitOpt(a, alpha, rSeq, qSeq, i-1, j2)
-//@   loop 6 invariant [dp-cur] forall j2 int {fitOpt(a, alpha, rSeq, qSeq, i, j2)} :: 0 <= j2 && j2 < j ==> proving(cell(i, j2)) && table[i*c+j2] == fitOpt(a, alpha, rSeq, qSeq, i, j2)
+//@   loop 6 invariant [dp-cur] forall j2 int {fitOpt(a, alpha, rSeq, qSeq, i, j2)} :: 0 <= j2 && j2 < j - 1 ==> proving(cell(i, j2)) && table[i*c+j2] == fitOpt(a, alpha, rSeq, qSeq, i, j2)
+//@   loop 6 invariant [dp-new] proving(cell(i, j-1)) && table[i*c+j-1] == fitOpt(a, alpha, rSeq, qSeq, i, j-1)
 //@   loop 7 invariant [dp] forall i2 int, j2 int {fitOpt(a, alpha, rSeq, qSeq, i2, j2)} :: 0 <= i2 && i2 < r && 0 <= j2 && j2 < c ==> proving(cell(i2, j2)) && table[i2*c+j2] == fitOpt(a, alpha, rSeq, qSeq, i2, j2)
 //@   loop 8 invariant [dp] forall i2 int, j2 int {fitOpt(a, alpha, rSeq, qSeq, i2, j2)} :: 0 <= i2 && i2 < r && 0 <= j2 && j2 < c ==> proving(cell(i2, j2)) && table[i2*c+j2] == fitOpt(a, alpha, rSeq, qSeq, i2, j2)
 //@   loop 9 invariant [dp] forall i2 int, j2 int {fitOpt(a, alpha, rSeq, qSeq, i2, j2)} :: 0 <= i2 && i2 < r && 0 <= j2 && j2 < c ==> proving(cell(i2, j2)) && table[i2*c+j2] == fitOpt(a, alpha, rSeq, qSeq, i2, j2)
@@ -379,6 +449,9 @@ package align
 //@   loop 10 writes fresh
 //@   loop 1 invariant [la] forall x int, y int {old(a[x][y])} :: 0 <= x && x < idx && 0 <= y && y < let ==> la[x*let+y] == old(a[x][y])
 //@   loop 1 writes fresh
+//@   loop 4 isolate
+//@   loop 5 isolate
+//@   loop 6 isolate
 //@   loop 2 invariant [la] forall x int, y int {old(a[x][y])} :: 0 <= x && x < let && 0 <= y && y < let ==> la[x*let+y] == old(a[x][y])
 //@   loop 3 invariant [la] forall x int, y int {old(a[x][y])} :: 0 <= x && x < let && 0 <= y && y < let ==> la[x*let+y] == old(a[x][y])
 //@   loop 4 invariant [la] forall x int, y int {old(a[x][y])} :: 0 <= x && x < let && 0 <= y && y < let ==> la[x*let+y] == old(a[x][y])
@@ -392,7 +465,8 @@ package align
 //@   loop 6 invariant [dp-col0] forall i2 int {fitOptQ(a, alpha, rSeq, qSeq, i2, 0)} :: 0 <= i2 && i2 < r ==> proving(cell(i2, 0)) && table[i2*c] == fitOptQ(a, alpha, rSeq, qSeq, i2, 0)
 //@   loop 6 invariant [dp-done] forall i2 int, j2 int {fitOptQ(a, alpha, rSeq, qSeq, i2, j2)} :: 0 <= i2 && i2 < i && 0 <= j2 && j2 < c ==> proving(cell(i2, j2)) && table[i2*c+j2] == fitOptQ(a, alpha, rSeq, qSeq, i2, j2)
 //@   loop 6 invariant [dp-prev] forall j2 int {fitOptQ(a, alpha, rSeq, qSeq, i-1, j2)} :: 0 <= j2 && j2 < c ==> proving(cell(i-1, j2)) && table[(i-1)*c+j2] == fitOptQ(a, alpha, rSeq, qSeq, i-1, j2)
-//@   loop 6 invariant [dp-cur] forall j2 int {fitOptQ(a, alpha, rSeq, qSeq, i, j2)} :: 0 <= j2 && j2 < j ==> proving(cell(i, j2)) && table[i*c+j2] == fitOptQ(a, alpha, rSeq, qSeq, i, j2)
+//@   loop 6 invariant [dp-cur] forall j2 int {fitOptQ(a, alpha, rSeq, qSeq, i, j2)} :: 0 <= j2 && j2 < j - 1 ==> proving(cell(i, j2)) && table[i*c+j2] == fitOptQ(a, alpha, rSeq, qSeq, i, j2)
+//@   loop 6 invariant [dp-new] proving(cell(i, j-1)) && table[i*c+j-1] == fitOptQ(a, alpha, rSeq, qSeq, i, j-1)
 //@   loop 7 invariant [dp] forall i2 int, j2 int {fitOptQ(a, alpha, rSeq, qSeq, i2, j2)} :: 0 <= i2 && i2 < r && 0 <= j2 && j2 < c ==> proving(cell(i2, j2)) && table[i2*c+j2] == fitOptQ(a, alpha, rSeq, qSeq, i2, j2)
 //@   loop 8 invariant [dp] forall i2 int, j2 int {fitOptQ(a, alpha, rSeq, qSeq, i2, j2)} :: 0 <= i2 && i2 < r && 0 <= j2 && j2 < c ==> proving(cell(i2, j2)) && table[i2*c+j2] == fitOptQ(a, alpha, rSeq, qSeq, i2, j2)
 //@   loop 9 invariant [dp] forall i2 int, j2 int {fitOptQ(a, alpha, rSeq, qSeq, i2, j2)} :: 0 <= i2 && i2 < r && 0 <= j2 && j2 < c ==> proving(cell(i2, j2)) && table[i2*c+j2] == fitOptQ(a, alpha, rSeq, qSeq, i2, j2)
